@@ -169,10 +169,15 @@ def triggers_of(program: dict, facts: dict[str, dict]) -> dict[str, list[str]]:
             _walk(st, lambda d: found.append(1) if d.get("fn") in CMP_OPS and d.get("args") and isinstance(d["args"][0], dict) and "lit" in d["args"][0] else None)
             if found:
                 hit("D51", sid)
-        if op == "join" and st.get("how") in ("left", "full") and (
-                "mutate" in f.get("right_chain", {}).get("verbs", []) or
-                (st.get("how") == "full" and "mutate" in f.get("chain", {}).get("verbs", []))):
-            hit("D52", sid)
+        if op == "join" and st.get("how") in ("left", "full"):
+            # every statement the null-padded input is built from (through nested joins / unions as well)
+            from .campaign import ancestors
+            by_id = {s["id"]: s for s in program["stmts"]}
+            padded = set(ancestors(program, st["right"]))
+            if st.get("how") == "full":
+                padded |= set(ancestors(program, st["src"]))
+            if any(by_id[a]["op"] == "mutate" for a in padded if a in by_id):
+                hit("D52", sid)
         if op in ("mutate", "summarize") and (ops & {"sum", "cum_sum"}):
             found = []
             _walk(st, lambda d: found.append(1) if d.get("fn") in ("sum", "cum_sum") and d.get("args") and isinstance(d["args"][0], dict)
